@@ -152,7 +152,10 @@ def _run(ck: core.Check, pool):
 
         for t in sorted(MX.TEMPLATES):
             for _ in range(S.escalate(ck, 4, 40)):
-                tasks.append({"level": "mixed", "case": MX.gen_mixed(rng, t), "seed": rng.randrange(10**6)})
+                case = MX.gen_mixed(rng, t)
+                if rng.random() < 0.5:
+                    case["fault"] = rng.choice(["raise", "wrongdtype", "wrongshape", "none", "truncated", "unknown-name", "scalar"])
+                tasks.append({"level": "mixed", "case": case, "seed": rng.randrange(10**6)})
     except Exception as e:  # noqa: BLE001
         ck.broken("oracle", "C15 mixed-opset program generator", f"{type(e).__name__}: {str(e)[:200]}")
     # fixed cases: constants spox propagates by itself (no backend): strings as str / UTF-8 bytes, NULs, non-ASCII
